@@ -190,3 +190,45 @@ pub fn hunt(n: usize, first: u64, count: u64) {
         }
     });
 }
+
+/// `fvh hunt-noninv <n> <first> <count>`: seeds whose stream of candidate polynomials starts with a
+/// run of non-invertible ones (each polynomial is non-invertible with probability about n/q, so a
+/// run of three is a 1-in-15000 / 1-in-2000 seed): the generator's rejection branch for a
+/// non-invertible f is then taken several times in a row, and its neighbours in the stream are
+/// non-invertible too.
+pub fn hunt_noninv(n: usize, first: u64, count: u64) {
+    use falcon_rust::verif_hooks::keygen_parts as kp;
+    use rand::SeedableRng;
+    let next = std::sync::atomic::AtomicU64::new(0);
+    std::thread::scope(|sc| {
+        for _ in 0..16 {
+            sc.spawn(|| loop {
+                let i = next.fetch_add(1, std::sync::atomic::Ordering::Relaxed);
+                if i >= count {
+                    break;
+                }
+                let seed = crate::util::seed32(0xC04_1000_0000 + first + i);
+                let mut rng = rand::rngs::StdRng::from_seed(seed);
+                let mut flags = String::new();
+                for k in 0..8 {
+                    let p = kp::gen_poly(n, &mut rng);
+                    let inv = !zq::evaluate_at_roots(&crate::util::to_i64(&p)).iter().any(|&x| x == 0);
+                    flags.push(if inv { '.' } else { 'X' });
+                    if k == 1 && !flags.starts_with("XX") && !flags.starts_with("X.") {
+                        break;
+                    }
+                }
+                // f0 non-invertible and (f1, g1) both non-invertible; or f0, f1, f2 non-invertible
+                let b = flags.as_bytes();
+                let x = |i: usize| b.get(i) == Some(&b'X');
+                if x(0) && x(2) && x(3) {
+                    println!("{} {} {} stream-run", n, crate::util::hex(&seed), flags);
+                } else if x(0) && x(2) && x(4) {
+                    println!("{} {} {} three-candidates", n, crate::util::hex(&seed), flags);
+                } else if x(0) && x(1) {
+                    println!("{} {} {} both", n, crate::util::hex(&seed), flags);
+                }
+            });
+        }
+    });
+}
